@@ -274,6 +274,12 @@ def run_eval(case, res, lines, tmp):
             other.save_h5(fn)
             ev.save_h5(fn)
             ev2 = ModelEvaluation.load_h5(fn)
+            if lines is not None:
+                # tie of the model's save/load of an evaluation record (`loadEval (saveEval r)`, theorem C20_reload) to the real round trip
+                ntok = lambda a: ",".join(S.name_tok(str(x)) for x in a)  # noqa: E731
+                lines.append(("c20.reload %d %s %s %s %s" % (K, mat_tok(preds), vec_tok(obs), ints_tok(chains), ntok(names)),
+                              "ok %s %s %s %s" % (mat_tok(np.asarray(ev2.predictions, dtype=float)), vec_tok(ev2.observations),
+                                                  ints_tok(ev2.chain_ids), ntok(ev2.sample_names)), "text", case))
             attrs_same = sorted(vars(ev2)) == sorted(vars(ev)) and all(
                 np.asarray(vars(ev2)[k]).shape == np.asarray(vars(ev)[k]).shape
                 and np.asarray(vars(ev2)[k]).dtype.kind == np.asarray(vars(ev)[k]).dtype.kind
